@@ -43,15 +43,21 @@ def drive(rep, prop, *, make_scn, judge, n_sim, n_real, real_first=True, handles
             rep.sample(scn_summary(scn, out))
 
 
-def report_bad(rep, scn, bad, limit=3):
+def report_bad(rep, scn, bad, limit=3, out=None):
     seen = set()
+    wit = {'scenario': scn}
+    if out is not None and bad:
+        # what the monitors observed, so that a verdict that does not replay can still be analysed
+        wit['observed_events'] = [{k: e.get(k) for k in ('k', 't', 'name', 'pid', 'gen', 'status', 'use_cache') if k in e}
+                                  for e in out.events if e.get('k') in ('launch', 'start', 'end')][:200]
+        wit['observed_calls'] = [{'op': c['op'], 'name': c.get('name')} for c in out.trace.calls][:300]
     for key, msg in bad:
         if key in seen:
             continue
         seen.add(key)
         if len(seen) > limit:
             break
-        rep.violation(key, msg, {'scenario': scn})
+        rep.violation(key, msg, wit)
 
 
 def replay_with(rep, wit, judge):
